@@ -312,3 +312,24 @@ failed_harness!(k_failed_01, 0u8, 1u8);
 failed_harness!(k_failed_12, 1u8, 2u8);
 failed_harness!(k_failed_20, 2u8, 0u8);
 failed_harness!(k_failed_11, 1u8, 1u8);
+
+/// minimal shape: ONE rule record without children, status symbolic -- "every FAIL rule is listed even when no individual
+/// check can be shown", PASS / SKIP rules are not listed
+#[cfg_attr(kani, kani::proof)]
+#[cfg_attr(kani, kani::unwind(2))]
+#[cfg_attr(kani, kani::stub(alloc::fmt::format, fmt_stub))]
+#[cfg_attr(verif_replay, test)]
+fn k_failed_min() {
+    lib_only!();
+    let s0: u8 = kani::any();
+    kani::assume(s0 <= 2);
+    let mut checks: Vec<EventRecord<'static>> = Vec::with_capacity(1);
+    checks.push(rule_rec("r0", s0, 0));
+    let out = report_all_failed_clauses_for_rules(&checks);
+    kani::assert(out.len() == (s0 == 1) as usize, "one entry per FAIL rule, none for PASS / SKIP rules");
+    if s0 == 1 {
+        check_entry(&out[0], "r0", 0);
+    }
+    std::mem::forget(out);
+    std::mem::forget(checks);
+}
